@@ -58,7 +58,7 @@ def plain(f):
 PROFILES = {
     # which functions, pure bodies?, extra event kinds, threads
     "C01": dict(lifetime=True, sel=lambda f: True, pure=True, events=["tick", "invw", "tag", "invc"], threads=2),
-    "C02": dict(sel=lambda f: f["sig"] in (1, 2, 4, 5, 6, 7, 8), pure=True, events=[], threads=2),
+    "C02": dict(sel=lambda f: f["sig"] in (1, 2, 4, 5, 6, 7, 8, 9), pure=True, events=[], threads=2),
     "C03": dict(pingpong=True, sel=plain, pure=True, events=[], threads=3),
     "C09": dict(lifetime=True, sel=lambda f: f["is_result"] and not f["cache_if"], pure=False, events=["tick"], threads=1),
     "C10": dict(lifetime=True, sel=lambda f: f["cache_if"], pure=False, events=["tick"], threads=1),
@@ -79,12 +79,15 @@ PROFILES = {
     "C08": dict(pingpong=True, sel=lambda f: f["pol"] in ("lfu", "arc", "tlru") and (f["limit"] or f["mem"]), pure=True, events=["invw", "tick", "tag", "invc"], threads=3),
     "C15": dict(sel=lambda f: f["fl"] != "t", pure=True, events=["sget", "sreset", "sgetn", "tick", "invw"], threads=3),
     "C19": dict(refresh=True, lifetime=True, sel=lambda f: True, pure=True, events=["tick", "tag", "invw", "sget"], threads=2),
+    # every operation returns, also in a sequential history (a self-deadlock on a lock the hooks cannot see)
+    "C17": dict(refresh=True, lifetime=True, sel=lambda f: True, pure=False,
+                events=["tick", "tag", "event", "dep", "invc", "invw", "invwb", "invall", "sget", "sreset"], threads=3),
     "C16": dict(sel=lambda f: True, pure=False, events=["tick", "tag", "event", "dep", "invc", "invw", "invall", "sget", "sreset"], threads=3),
 }
 
 LENS = [4, 8, 16, 40, 76]
-TAGS = ["t1", "t2", "tx", "chainA", "chainB"]
-EVENTS = ["e1", "e2", "ex", "chainA"]
+TAGS = ["t1", "t2", "tx", "chainA", "chainB", "mass"]
+EVENTS = ["e1", "e2", "ex", "chainA", "massev"]
 DEPS = ["d1", "d2", "dx", "chainA", "chainB"]
 
 
@@ -283,9 +286,33 @@ def gen_refresh_case(r, fns, prof):
     return [f], evs
 
 
+def gen_mass_case(r, fns):
+    """every cache of a large group under one label is used, the label is fired, every cache is used again"""
+    group = [f for f in fns if "mass" in f["tags"]]
+    if len(group) < 17:
+        return None
+    evs = []
+
+    def calls():
+        for f in group:
+            for x in range(1 + r.below(2)):
+                evs.append("E 0 call %d %d 0 ok %d %d 0 1" % (f["idx"], x, (f["idx"] * 37 + x * 11) % 500 + 1, LENS[x % 5]))
+    calls()
+    evs.append("E 0 %s" % r.pick(["tag mass", "event massev"]))
+    calls()
+    if r.chance(1, 2):
+        evs.append("E 0 %s" % r.pick(["tag mass", "event massev", "tag t1"]))
+        calls()
+    return group, evs
+
+
 def gen_case(r, fns, prof, nev):
     if prof.get("async_susp"):
         return gen_async_case(r, fns)
+    if prof.get("heavy_inval") and r.chance(1, 12):
+        c = gen_mass_case(r, fns)
+        if c:
+            return c
     if prof.get("refresh") and r.chance(1, 5):
         c = gen_refresh_case(r, fns, prof)
         if c:
